@@ -147,6 +147,11 @@ func cmdModset(args []string) int {
 			for _, c := range ms.sorted() {
 				fmt.Println("   ", c)
 			}
+			for i, mm := range ms.byParam {
+				for c := range mm {
+					fmt.Printf("    param %d: %s\n", i, c)
+				}
+			}
 			if len(args) > 1 {
 				// shortest call path to a function that writes component args[1] directly
 				type node struct {
@@ -159,11 +164,12 @@ func cmdModset(args []string) int {
 					n := queue[0]
 					queue = queue[1:]
 					d, callees := ma.directOf(n.f)
-					if _, ok := d.comps[args[1]]; ok {
+					if _, ok := d.flat()[args[1]]; ok {
 						fmt.Println("  path:", n.path)
 						break
 					}
-					for _, c := range callees {
+					for _, cs := range callees {
+						c := cs.callee
 						if !seen[c] {
 							seen[c] = true
 							queue = append(queue, node{c, n.path + " -> " + c.String()})
